@@ -89,7 +89,9 @@ def live_clock_and_start(rng, seg_s: float = 4.0, ref_s: float = 40.0, plus_offs
     now = calendar_instants(rng)
     delta = segment_phase_offsets(rng, seg_s, ref_s)
     ast = now - datetime.timedelta(seconds=delta)
-    ast = ast.replace(microsecond=rng.choice([0, 0, 0, ast.microsecond, 500000]))
+    ast = ast.replace(microsecond=rng.choice([0, 0, 0, 0, ast.microsecond, 500000]))
+    if ast > now:      # explicit start values are never in the future (quantified domain)
+        ast = now.replace(microsecond=0)
     if ast < datetime.datetime(1971, 1, 1, tzinfo=UTC):
         ast = datetime.datetime(1971, 1, 1, tzinfo=UTC)
     if plus_offsets and rng.random() < 0.15:
